@@ -173,7 +173,9 @@ class Engine:
             return [(st, NORMAL, v)]
         if isinstance(v, SStr):
             return [(st, NORMAL, len(v) > 0)]
-        if isinstance(v, (SInt, SBool, bool, int, str, tuple, list, dict, type(None), float)):
+        if isinstance(v, list):
+            return [(st, NORMAL, len(self.overlay_seq(st, v)) > 0)]
+        if isinstance(v, (SInt, SBool, bool, int, str, tuple, dict, type(None), float)):
             return [(st, NORMAL, truth(v))]
         if is_mp_object(v):
             for name in ('__bool__', '__nonzero__', '__len__'):
@@ -300,6 +302,19 @@ class Engine:
     def native_call(self, st, fn, args, kwargs):
         if '__unknown_kwargs__' in kwargs:
             return self.unknown_call(st, Unknown('native'), args, {})
+        owner = getattr(fn, '__self__', None)
+        if isinstance(owner, list) and not kwargs and getattr(fn, '__name__', '') in ('append', 'extend') and len(args) == 1 and (
+                has_sym(list(args)) or (id(owner), 'contents') in st.heap):
+            # functional model of list growth: the new contents live in the heap overlay of this path
+            cur = list(self.overlay_seq(st, owner))
+            if fn.__name__ == 'append':
+                cur.append(args[0])
+            else:
+                if is_sym(args[0]) or not isinstance(args[0], (list, tuple)):
+                    raise Unsupported('list.extend with a symbolic iterable')
+                cur.extend(self.overlay_seq(st, args[0]))
+            self.heap_set(st, owner, 'contents', cur)
+            return [(st, NORMAL, None)]
         if has_sym(list(args)) or has_sym(list(kwargs.values())):
             raise Unsupported('native call %s with symbolic arguments' % getattr(fn, '__name__', fn))
         if has_unknown(list(args)) or has_unknown(list(kwargs.values())):
@@ -847,6 +862,14 @@ class Engine:
             si = self.find_class_attr(type(c), '__setitem__')
             if si is not _MISSING and is_mp_function(si):
                 return self.lift(self.call(st, si, [c, i, val], {}, fr), lambda s, r: [(s, NORMAL, None)])
+        if isinstance(c, list) and (id(c), 'contents') in st.heap:
+            cur = list(self.overlay_seq(st, c))
+            try:
+                cur[i] = val
+            except (IndexError, TypeError) as e:
+                return [(st, RAISE, e)]
+            self.heap_set(st, c, 'contents', cur)
+            return [(st, NORMAL, None)]
         if isinstance(c, (list, dict)):
             if isinstance(c, list) and not (-len(c) <= i < len(c)):
                 return [(st, RAISE, IndexError('list assignment index out of range'))]
@@ -1039,7 +1062,7 @@ class Engine:
                         items = [Unknown('item'), Unknown('item')]
                         partial = True
                     else:
-                        items = list(itv)
+                        items = list(self.overlay_seq(s, itv))
                         partial = False
                         if self.abstract and len(items) > 3:
                             items = items[:2]
@@ -1721,12 +1744,14 @@ class Engine:
     def overlay_seq(self, s, c):
         """a list with overlay item writes applied"""
         if isinstance(c, list) and s.heap:
-            out = None
+            h = s.heap.get((id(c), 'contents'))
+            out = list(h[1]) if h is not None else None
             for (oid, key), (obj, val) in s.heap.items():
                 if oid == id(c) and isinstance(key, tuple) and key[0] == 'item':
                     if out is None:
                         out = list(c)
-                    out[key[1]] = val
+                    if key[1] < len(out):
+                        out[key[1]] = val
             if out is not None:
                 return out
         return c
@@ -1739,6 +1764,8 @@ class Engine:
             return [(s, NORMAL, Unknown('item', t))]
         if isinstance(i, SBool):
             i = mk_int(zt(i), 0, 1)
+        if isinstance(c, list) and (id(c), 'contents') in s.heap:
+            c = self.overlay_seq(s, c)
         if isinstance(c, SStr):
             if is_sym(i):
                 raise Unsupported('symbolic index into symbolic string')
